@@ -1,6 +1,6 @@
 """Single source of the MANIFEST.json entries: bin/mkmanifest renders it."""
 
-HOOK_COMMITS = ['83fd8f2', '713b01e']
+HOOK_COMMITS = ['83fd8f2', '713b01e', 'b36dcae', 'da09ff1']
 
 CHECKS = {
  'C02': dict(
